@@ -24,6 +24,52 @@ use std::sync::OnceLock;
 use std::pin::Pin;
 use std::task::{Context, Poll, RawWaker, RawWakerVTable, Waker};
 
+// ------------------------------------------------ allocation counting (C18 under threads)
+// Allocations and frees are counted while ARMED is set, i.e. inside library calls that a scenario
+// wraps in `armed(..)`. Every function of this harness that performs a loom operation (lock shim,
+// scheduling wakers, counter hook) runs it inside `unarmed(..)`: loom allocates for its own
+// bookkeeping there, and - loom threads being coroutines on one OS thread - that is also the only
+// place where another thread can get to run, so saving the flag on entry and restoring it on exit
+// keeps it per loom thread.
+struct CountingAlloc;
+static ARMED: std::sync::atomic::AtomicBool = std::sync::atomic::AtomicBool::new(false);
+static ALLOCS: AtomicUsize = AtomicUsize::new(0);
+static FREES: AtomicUsize = AtomicUsize::new(0);
+unsafe impl std::alloc::GlobalAlloc for CountingAlloc {
+    unsafe fn alloc(&self, l: std::alloc::Layout) -> *mut u8 {
+        if ARMED.load(Ordering::Relaxed) {
+            ALLOCS.fetch_add(1, Ordering::Relaxed);
+        }
+        std::alloc::System.alloc(l)
+    }
+    unsafe fn dealloc(&self, p: *mut u8, l: std::alloc::Layout) {
+        if ARMED.load(Ordering::Relaxed) {
+            FREES.fetch_add(1, Ordering::Relaxed);
+        }
+        std::alloc::System.dealloc(p, l)
+    }
+    unsafe fn realloc(&self, p: *mut u8, l: std::alloc::Layout, n: usize) -> *mut u8 {
+        if ARMED.load(Ordering::Relaxed) {
+            ALLOCS.fetch_add(1, Ordering::Relaxed);
+        }
+        std::alloc::System.realloc(p, l, n)
+    }
+}
+#[global_allocator]
+static GA: CountingAlloc = CountingAlloc;
+fn armed<R>(f: impl FnOnce() -> R) -> R {
+    let prev = ARMED.swap(true, Ordering::Relaxed);
+    let r = f();
+    ARMED.store(prev, Ordering::Relaxed);
+    r
+}
+fn unarmed<R>(f: impl FnOnce() -> R) -> R {
+    let prev = ARMED.swap(false, Ordering::Relaxed);
+    let r = f();
+    ARMED.store(prev, Ordering::Relaxed);
+    r
+}
+
 /// RawMutex on top of a native loom mutex: lock() takes the loom mutex and
 /// stashes the guard, unlock() drops it. One loom operation per lock/unlock,
 /// real blocking semantics.
@@ -48,13 +94,24 @@ unsafe impl RawMutex for LoomRaw {
     const INIT: LoomRaw = LoomRaw { inner: OnceLock::new(), tick: OnceLock::new(), guard: std::cell::UnsafeCell::new(None) };
     type GuardMarker = GuardSend;
     fn lock(&self) {
+        unarmed(|| self.lock_inner())
+    }
+    fn try_lock(&self) -> bool {
+        unarmed(|| self.try_lock_inner())
+    }
+    unsafe fn unlock(&self) {
+        unarmed(|| self.unlock_inner())
+    }
+}
+impl LoomRaw {
+    fn lock_inner(&self) {
         if preempt_after_unlock() {
             self.tick.get_or_init(next_tick).fetch_add(1, Ordering::Relaxed);
         }
         let g = self.get().lock().unwrap();
         unsafe { *self.guard.get() = Some(std::mem::transmute::<MutexGuard<'_, ()>, MutexGuard<'static, ()>>(g)) };
     }
-    fn try_lock(&self) -> bool {
+    fn try_lock_inner(&self) -> bool {
         // same object as the holder's pre-release RMW: makes "try_lock while
         // another thread is inside the critical section" a dependent pair
         // that DPOR has to explore in both orders
@@ -69,11 +126,11 @@ unsafe impl RawMutex for LoomRaw {
             Err(_) => false,
         }
     }
-    unsafe fn unlock(&self) {
+    fn unlock_inner(&self) {
         if preempt_in_critical_section() {
             self.tick.get_or_init(next_tick).fetch_add(1, Ordering::Relaxed);
         }
-        drop((*self.guard.get()).take());
+        drop(unsafe { (*self.guard.get()).take() });
         // loom switches threads only in front of synchronisation operations: without one more
         // operation here (dependent with the one in front of every lock()), code that keeps
         // working on shared data AFTER leaving the critical section is never interleaved with
@@ -200,7 +257,9 @@ fn counting_waker() -> (Waker, std::sync::Arc<AtomicUsize>) {
         count: std::sync::Arc<AtomicUsize>,
     }
     fn point() {
-        wtick().fetch_add(1, Ordering::Relaxed);
+        unarmed(|| {
+            wtick().fetch_add(1, Ordering::Relaxed);
+        });
     }
     unsafe fn clone(p: *const ()) -> RawWaker {
         point();
@@ -871,6 +930,106 @@ fn timer_many_vs_abandon() {
     epilogue_timer(&t, 5);
 }
 
+// ------------------------------------------------ no allocation inside library calls, under threads
+// Two threads perform a mass wake-up on the same primitive with MANY parked futures at the same
+// time; every library call is armed. A scratch buffer that one thread has taken out of the shared
+// state while it works outside the lock (so that the other thread finds a placeholder and has to
+// allocate) is invisible to every single-threaded history.
+
+fn alloc_reset() {
+    ALLOCS.store(0, Ordering::Relaxed);
+    FREES.store(0, Ordering::Relaxed);
+}
+fn alloc_check(what: &str) {
+    let (a, f) = (ALLOCS.load(Ordering::Relaxed), FREES.load(Ordering::Relaxed));
+    assert!(a + f == 0, "C18: {} allocations / {} frees inside {}", a, f, what);
+}
+
+fn alloc_race_timer() {
+    CLK.0.store(0, Ordering::SeqCst);
+    let t = Arc::new(GenericTimerService::<LoomRaw>::new(&CLK));
+    let _ = t.next_expiration();
+    let tr: &'static GenericTimerService<LoomRaw> = unsafe { &*(&*t as *const GenericTimerService<LoomRaw>) };
+    let (w, c) = plain_waker();
+    let mut parked: Vec<_> = (0..MANY).map(|i| Box::pin(Timer::deadline(tr, 1 + (i % 2) as u64))).collect();
+    for f in parked.iter_mut() {
+        assert!(f.as_mut().poll(&mut Context::from_waker(&w)).is_pending());
+    }
+    CLK.0.store(2, Ordering::SeqCst);
+    alloc_reset();
+    let hs: Vec<_> = (0..2)
+        .map(|_| {
+            let t = t.clone();
+            loom::thread::spawn(move || armed(|| t.check_expirations()))
+        })
+        .collect();
+    for h in hs {
+        h.join().unwrap();
+    }
+    alloc_check("concurrent check_expirations() calls");
+    assert!(c.load(Ordering::SeqCst) >= MANY, "C15: not every due timer was woken");
+    drop(parked);
+    epilogue_timer(&t, 2);
+}
+
+fn alloc_race_event() {
+    let e = Arc::new(GenericManualResetEvent::<LoomRaw>::new(false));
+    let _ = e.is_set();
+    let er: &'static GenericManualResetEvent<LoomRaw> = unsafe { &*(&*e as *const GenericManualResetEvent<LoomRaw>) };
+    let (w, c) = plain_waker();
+    let mut parked: Vec<_> = (0..MANY).map(|_| Box::pin(er.wait())).collect();
+    for f in parked.iter_mut() {
+        assert!(f.as_mut().poll(&mut Context::from_waker(&w)).is_pending());
+    }
+    alloc_reset();
+    let hs: Vec<_> = (0..2)
+        .map(|_| {
+            let e = e.clone();
+            loom::thread::spawn(move || armed(|| e.set()))
+        })
+        .collect();
+    for h in hs {
+        h.join().unwrap();
+    }
+    alloc_check("concurrent set() calls");
+    assert!(c.load(Ordering::SeqCst) >= MANY, "C14: set() did not wake every parked waiter");
+    drop(parked);
+    epilogue_event(&e);
+}
+
+fn alloc_race_sem() {
+    let s = Arc::new(GenericSemaphore::<LoomRaw>::new(false, 0));
+    let _ = s.permits();
+    let sr: &'static GenericSemaphore<LoomRaw> = unsafe { &*(&*s as *const GenericSemaphore<LoomRaw>) };
+    let (w, c) = plain_waker();
+    let mut parked: Vec<_> = (0..MANY).map(|_| Box::pin(sr.acquire(1))).collect();
+    for f in parked.iter_mut() {
+        assert!(f.as_mut().poll(&mut Context::from_waker(&w)).is_pending());
+    }
+    alloc_reset();
+    let hs: Vec<_> = (0..2)
+        .map(|_| {
+            let s = s.clone();
+            loom::thread::spawn(move || armed(|| s.release(MANY / 2)))
+        })
+        .collect();
+    for h in hs {
+        h.join().unwrap();
+    }
+    alloc_check("concurrent release() calls");
+    assert!(c.load(Ordering::SeqCst) >= 1, "C06: release() did not wake anybody");
+    for f in parked.iter_mut() {
+        match f.as_mut().poll(&mut Context::from_waker(&w)) {
+            Poll::Ready(mut r) => {
+                r.disarm();
+            }
+            Poll::Pending => panic!("C06: {} permits were released for {} requests of 1, but a request stays pending", MANY, MANY),
+        }
+    }
+    drop(parked);
+    epilogue_sem(&s, 0);
+}
+
 // ------------------------------------------------ sequential epilogues
 // After all threads of a scenario have been joined, the primitive is put through one plain
 // single-threaded cycle whose outcome the property fixes completely. A lock-free mirror, cached
@@ -983,7 +1142,9 @@ fn sched_hook(addr: usize) {
     };
     // one RMW on a per-counter loom atomic: counter operations of different threads become
     // dependent scheduling points (the std lock above is released before loom may switch)
-    a.fetch_add(1, Ordering::SeqCst);
+    unarmed(|| {
+        a.fetch_add(1, Ordering::SeqCst);
+    });
 }
 fn reset_hook_registry() {
     if !HOOK_ON.load(Ordering::Relaxed) {
@@ -2153,6 +2314,9 @@ const SCENARIOS: &[(&str, &str, Scenario)] = &[
     ("mpmc_close_vs_abandon_rev", "wk:C01,C11", mpmc_close_vs_abandon_rev),
     ("timer_expire_vs_complete", "wk:C01,C15", timer_expire_vs_complete),
     ("event_set_vs_complete", "wk:C01,C14", event_set_vs_complete),
+    ("alloc_race_timer", "C15,C18", alloc_race_timer),
+    ("alloc_race_event", "C14,C18", alloc_race_event),
+    ("alloc_race_sem", "C06,C18", alloc_race_sem),
     ("mutex_debug_vs_guard", "C02,C16", mutex_debug_vs_guard),
     ("event_many_set_vs_reset", "C01,C14", event_many_set_vs_reset),
     ("timer_many_vs_abandon", "C01,C15", timer_many_vs_abandon),
